@@ -27,6 +27,7 @@ RULE += ("  " + 'Also (round 7): user table C, whose catch-all (anonymous) accou
 RULE += ("  " + "Also (round 8): a transfer accepted under one login, USER for a password account (331), then the data connection: never the named account's file or tree.")
 RULE += ("  " + 'Also (round 9): commands that need a login sent between two USERs of a re-login (answered 503, nothing of the previous account is used); a user manager that times out or is slow to log out; a listing asked for just before the re-login and read after it.')
 RULE += ("  " + 'Also (round 10): slow logout notification on a server whose own time-outs (socket, path, wait-future) are shorter than that notification takes.')
+RULE += ("  " + 'Also (round 11): REST n + APPE / STOR / RETR behind the second USER.')
 ASSUMPTIONS = ["MemoryUserManager (the shipped user manager)", "authentication model = harness/ftpmodel.py USER/PASS rules"]
 REQUIRED_MONITORS = ["unauthenticated_command", "identity_probe", "backend_untouched"]
 ANCHOR_FUNCTIONS = ['server.py:Server.user', 'server.py:Server.pass_', 'server.py:ConnectionConditions.__call__.<locals>.wrapper']
